@@ -16,6 +16,7 @@ type Ctx struct {
 	Opp    string // the other one of the pair (transfer)
 	TNew   string // a not yet existing index name of the same namespace as T (create)
 	Key    string // kv key
+	KeyEnc bool   // send the key with '_' and ':' percent-encoded (a second spelling of the same key)
 	Method string
 }
 
@@ -36,6 +37,15 @@ type Route struct {
 }
 
 func seg(s string) string { return url.PathEscape(s) }
+
+// kseg is the path segment of the kv key of the case: the canonical escaping or, for KeyEnc, a spelling in which
+// the characters a prefix comparison on the raw path would look for are percent-encoded
+func kseg(c *Ctx) string {
+	if !c.KeyEnc {
+		return seg(c.Key)
+	}
+	return strings.NewReplacer("_", "%5F", ":", "%3A").Replace(seg(c.Key))
+}
 func ix(c *Ctx) string    { return "/vector/indexes/" + seg(c.T) }
 
 func fixed(path string, body M) func(*Ctx) (string, M) {
@@ -94,10 +104,10 @@ var table = map[string]*Route{
 
 	"GET /events/stream": r("events", "none", fixed("/events/stream", nil)).stream(),
 
-	"GET /kv/{key}":    r("kv_read", "none", func(c *Ctx) (string, M) { return "/kv/" + seg(c.Key), nil }),
-	"POST /kv/{key}":   r("kv_write", "none", func(c *Ctx) (string, M) { return "/kv/" + seg(c.Key), M{"value": "changed"} }).eff(),
-	"PUT /kv/{key}":    r("kv_write", "none", func(c *Ctx) (string, M) { return "/kv/" + seg(c.Key), M{"value": "changed"} }).eff(),
-	"DELETE /kv/{key}": r("kv_delete", "none", func(c *Ctx) (string, M) { return "/kv/" + seg(c.Key), nil }).eff(),
+	"GET /kv/{key}":    r("kv_read", "none", func(c *Ctx) (string, M) { return "/kv/" + kseg(c), nil }),
+	"POST /kv/{key}":   r("kv_write", "none", func(c *Ctx) (string, M) { return "/kv/" + kseg(c), M{"value": "changed"} }).eff(),
+	"PUT /kv/{key}":    r("kv_write", "none", func(c *Ctx) (string, M) { return "/kv/" + kseg(c), M{"value": "changed"} }).eff(),
+	"DELETE /kv/{key}": r("kv_delete", "none", func(c *Ctx) (string, M) { return "/kv/" + kseg(c), nil }).eff(),
 
 	"GET /vector/indexes": r("index_list", "none", fixed("/vector/indexes", nil)),
 	"POST /vector/indexes": r("index_create", "body", func(c *Ctx) (string, M) {
@@ -248,7 +258,7 @@ var table = map[string]*Route{
 // synthetic requests that match no registered pattern (class "unrouted")
 var synthetic = map[string]*Route{
 	"GET /nowhere/{x}":            r("unrouted", "none", func(c *Ctx) (string, M) { return "/nowhere/" + seg(c.W.XS), nil }),
-	"PATCH /kv/{key}":             r("unrouted", "none", func(c *Ctx) (string, M) { return "/kv/" + seg(c.Key), M{"value": "patched"} }),
+	"PATCH /kv/{key}":             r("unrouted", "none", func(c *Ctx) (string, M) { return "/kv/" + kseg(c), M{"value": "patched"} }),
 	"POST /vector/indexes/{name}": r("unrouted", "none", func(c *Ctx) (string, M) { return "/vector/indexes/" + seg(c.W.Other), M{"x": 1} }),
 }
 
